@@ -311,6 +311,29 @@ func c08Inputs(seed int64, thorough bool) (files []c08Input, profiles []c08Input
 			profiles = append(profiles, c08Input{fmt.Sprintf("%s[:%d]", p.name, cut), p.bytes[:cut], "ICC", p.accept})
 		}
 	}
+	// profiles whose 128 header bytes are arbitrary (every flag bit, attribute, date, version,
+	// illuminant ...) apart from the file signature: every header field is part of the outcome
+	for i := 0; i < np/5; i++ {
+		p := c17Gen(rng, i)
+		if len(p.bytes) < 132 {
+			continue
+		}
+		d := append([]byte{}, p.bytes...)
+		hdr := rng.Bytes(128)
+		copy(hdr[0:4], d[0:4])     // profile size
+		copy(hdr[36:40], d[36:40]) // file signature
+		copy(hdr[8:12], d[8:12])   // version (selects the description's type)
+		switch i % 4 {
+		case 0: // one header field changed at a time: the flags
+			hdr = append([]byte{}, d[:128]...)
+			hdr[44], hdr[45], hdr[46], hdr[47] = byte(rng.Intn(256)), byte(rng.Intn(256)), byte(rng.Intn(256)), byte(1+rng.Intn(3))
+		case 1:
+			hdr = append([]byte{}, d[:128]...)
+			copy(hdr[48:64], rng.Bytes(16))
+		}
+		copy(d[:128], hdr)
+		profiles = append(profiles, c08Input{p.name + " with other header bytes", d, "ICC", p.accept})
+	}
 	// hostile profiles: every length/count/offset field of the ICC seeds x boundary values (C09's matrix)
 	{
 		g := newC09Gen(seed, false)
